@@ -348,7 +348,9 @@ func GenQuery(rnd *rand.Rand, tabs []*Table, o QueryOpts) Query {
 	}
 	where := ""
 	if len(conj) > 0 {
-		if len(conj) == 2 && rnd.Intn(4) == 0 {
+		// excluded class where-or-across-three-tables: a WHERE disjunction in a query with more than two
+		// tables gets attached to a join that lacks one of the referenced tables
+		if len(conj) == 2 && rnd.Intn(4) == 0 && nt <= 2 {
 			g.tag("where:or")
 			where = " WHERE " + conj[0] + " OR " + conj[1]
 		} else {
